@@ -531,7 +531,15 @@ func (em *emitter) emitAssignmentNode(node *ast.Assignment) {
 
 		case *ast.Index:
 			exprType := em.typ(v.Expr)
-			expr := em.emitExpr(v.Expr, exprType)
+			var expr int8
+			if op, ok := v.Expr.(*ast.UnaryOperator); ok && op.Op == ast.OperatorPointer && exprType.Kind() == reflect.Array {
+				// (*pa)[i] = x, also written pa[i] = x: address the pointed
+				// array itself; evaluating *pa would make a copy of it and
+				// the assignment would be lost.
+				expr = -em.emitExpr(op.Expr, em.typ(op.Expr))
+			} else {
+				expr = em.emitExpr(v.Expr, exprType)
+			}
 			indexType := intType
 			if exprType.Kind() == reflect.Map {
 				indexType = exprType.Key()
